@@ -125,6 +125,13 @@ func c03Cases(tier string, seed int64) []core.Case {
 			return c03LateAfterCancel(ctx, dotu)
 		}})
 	}
+	// the whole answer given twice while the first one is still waiting for the connection's writer
+	for _, dotu := range []bool{true, false} {
+		dotu := dotu
+		cases = append(cases, core.Case{ID: fmt.Sprintf("second-full-answer-while-queued/dotu=%v", dotu), Run: func(ctx *core.Ctx) core.Result {
+			return c03SecondFullAnswer(ctx, dotu)
+		}})
+	}
 	// a Tflush is a request too: it gets exactly one reply wherever it meets the request it names
 	for _, dotu := range []bool{true, false} {
 		for _, flushop := range []bool{false, true} {
@@ -135,6 +142,151 @@ func c03Cases(tier string, seed int64) []core.Case {
 		}
 	}
 	return cases
+}
+
+// c03SecondFullAnswer: the connection's writer is parked on an earlier reply, so the answers of the following requests
+// wait in its queue (Maxpend > 0); the implementation answers one of them twice, each time in full (RespondRxxx packs
+// the message again before the framework finds out that the request was answered already). Exactly one reply with the
+// request's tag and the produced content may reach the wire.
+func c03SecondFullAnswer(ctx *core.Ctx, dotu bool) core.Result {
+	var res core.Result
+	s := NewSess(Config{Dotu: dotu, Msize: 8192, Maxpend: 8})
+	c := s.Dial()
+	defer func() {
+		s.Ctl.ReleaseAll()
+		c.Hangup()
+	}()
+	ver := "9P2000"
+	if dotu {
+		ver = "9P2000.u"
+	}
+	if r, err := c.Version(8192, ver, W); err != nil || r.Msg == nil {
+		res.Inconclusive = "c03: version failed"
+		return res
+	}
+	tag := uint16(0)
+	rpc := func(m *wire.Msg) *wire.Msg {
+		tag++
+		m.Tag = tag
+		r, err := c.Rpc(m, W)
+		if err != nil || r.Msg == nil {
+			return nil
+		}
+		return r.Msg
+	}
+	if a := rpc(&wire.Msg{Type: wire.Tattach, Fid: 1, Afid: wire.NOFID, Uname: "root", Nuname: 0}); a == nil || a.Type != wire.Rattach {
+		res.Inconclusive = "c03: attach failed"
+		return res
+	}
+	if w := rpc(&wire.Msg{Type: wire.Twalk, Fid: 1, Newfid: 2, Wname: []string{"f"}}); w == nil || w.Type != wire.Rwalk {
+		res.Inconclusive = "c03: walk failed"
+		return res
+	}
+	rpc(&wire.Msg{Type: wire.Topen, Fid: 2, Mode: 2})
+	kinds := []string{"stat", "read", "error", "walk", "write", "attach"}
+	for round := 0; round < 18 && len(res.Violations) < 3; round++ {
+		ctx.Beat()
+		kind := kinds[round%len(kinds)]
+		// the reply that keeps the writer busy
+		tag++
+		first := &wire.Msg{Type: wire.Tstat, Fid: 1, Tag: tag}
+		hold := s.Ctl.HoldAt("send.dequeued", c.ID, int(first.Tag), sched.AnyTag, 20*time.Second)
+		s.Ops.SetPlan(c.ID, first.Tag, script.NewPlan())
+		_ = c.Send(first)
+		if !hold.WaitReached(W) {
+			res.Inconclusive = "c03: the writer never took the first reply"
+			hold.Release()
+			return res
+		}
+		tag++
+		var m *wire.Msg
+		plan := script.NewPlan()
+		plan.TwiceFull = true
+		switch kind {
+		case "stat":
+			m = &wire.Msg{Type: wire.Tstat, Fid: 2}
+		case "read":
+			m = &wire.Msg{Type: wire.Tread, Fid: 2, Offset: uint64(round), Count: uint32(50 + round)}
+		case "error":
+			m = &wire.Msg{Type: wire.Tstat, Fid: 2}
+			plan.Err, plan.Errnum = fmt.Sprintf("planned error %d", round), 5
+		case "walk":
+			m = &wire.Msg{Type: wire.Twalk, Fid: 1, Newfid: uint32(300 + round), Wname: []string{"d", "e"}}
+		case "write":
+			m = &wire.Msg{Type: wire.Twrite, Fid: 2, Offset: 3, Count: 6, Data: []byte("abcdef")}
+		case "attach":
+			m = &wire.Msg{Type: wire.Tattach, Fid: uint32(400 + round), Afid: wire.NOFID, Uname: "root", Nuname: 0, Aname: "again"}
+		}
+		m.Tag = tag
+		s.Ops.SetPlan(c.ID, m.Tag, plan)
+		seq0 := s.Log.Seq()
+		_ = c.Send(m)
+		// both answers have been given when the callback has returned
+		exited := waitFor(W, func() bool {
+			for _, ev := range s.Log.Snapshot(seq0) {
+				if ev.Kind == "exit" && ev.Conn == c.ID && ev.Tag == m.Tag {
+					return true
+				}
+			}
+			return false
+		})
+		hold.Release()
+		res.Evals++
+		det := map[string]interface{}{"request": m.String(), "answered_twice_in_full": true, "first_answer_still_queued": exited, "dotu": dotu}
+		c.WaitTag(first.Tag, W)
+		var got []*Reply
+		deadline := time.Now().Add(W)
+		for {
+			r, err := c.WaitTag(m.Tag, time.Until(deadline))
+			if err != nil {
+				break
+			}
+			got = append(got, r)
+			deadline = time.Now().Add(30 * time.Millisecond)
+		}
+		c.Quiesce(W)
+		var e script.Event
+		for _, ev := range s.Log.Snapshot(seq0) {
+			if ev.Kind == "op" && ev.Tag == m.Tag {
+				e = ev
+			}
+		}
+		switch {
+		case len(got) == 0:
+			res.Violate("C03;missing-reply;second-full-answer;"+kind, "a request answered twice in full while its first answer was queued got no reply carrying its tag", det)
+		case len(got) > 1:
+			res.Violate("C03;duplicate-reply;second-full-answer;"+kind, fmt.Sprintf("%d replies for a request answered twice in full", len(got)), det)
+		default:
+			ft := uint8(0)
+			if m.Fid == 1 {
+				ft = go9p.QTDIR
+			}
+			want := wire.Encode(expectedReply(m, plan, e, ft, dotu), dotu)
+			if !bytes.Equal(want, got[0].Raw) {
+				wm, _, _ := wire.Decode(want, dotu)
+				det["want"] = fmt.Sprintf("%#v", wm.Stat)
+				det["got"] = fmt.Sprintf("%#v", got[0].Msg.Stat)
+				res.Violate("C03;wrong-content;second-full-answer;"+kind, "reply is not what the implementation produced: "+got[0].Msg.String(), det)
+			}
+		}
+		for _, r := range c.Pending() {
+			what := "undecodable frame"
+			if r.Msg != nil {
+				what = r.Msg.String()
+			}
+			res.Violate("C03;unsolicited-reply;second-full-answer;"+kind, "a frame for a tag with no outstanding request: "+what, det)
+		}
+		for {
+			if _, err := c.Next(time.Millisecond); err != nil {
+				break
+			}
+		}
+		if exited {
+			res.Count("full_second_answers_while_the_first_was_queued", 1)
+			res.Sig(fmt.Sprintf("second-full|%s|%v", kind, dotu))
+		}
+	}
+	return res
 }
 
 // c03FlushMeets: the worker of a Tflush is parked at each point of Srv.flush while the request it names is answered
